@@ -44,6 +44,10 @@ fn main() {
             "end" => {
                 writeln!(out, "case {}", id).unwrap();
                 let mut o = obs::Out::new();
+                // optional `wscale k` line: dyadic scale of all weights of this case (obs::WSCALE)
+                let k = cur.iter().find(|l| l[0] == "wscale").map(|l| l[1].parse::<i32>().unwrap()).unwrap_or(0);
+                obs::WSCALE.store(k, std::sync::atomic::Ordering::SeqCst);
+                cur.retain(|l| l[0] != "wscale");
                 match mode {
                     "hist" => hist::run_case(&cur, &mut o),
                     "api" => api::run_case(&cur, &mut o),
